@@ -43,7 +43,8 @@ def run(chk):
         'errors with an offending token spliced in at every position incl. '
         'unexpected end; bad levels; conflicting add_var; bad reorder orders; '
         'bad swaps; undeclare used/unknown; missing/garbage/dangling/'
-        'wrong-extension files; configure; overlapping renames), half of the '
+        'wrong-extension files; configure; overlapping renames; copy_vars into '
+        'managers that it must refuse), half of the '
         'histories with dynamic reordering on at a lowered threshold. TLC '
         'checks after each raised call: held denotations, canonicity, exact '
         'counts, order, flags (exc.*), and the contract of the next '
@@ -66,7 +67,11 @@ def run(chk):
     xt = [dict(shard=chk.shard('x_c17_%d' % i), tid0=17000000 + i * 100,
                seed=chk.seed * 19 + i, ntraces=4 if q else 100, tmpdir=tmp) for i in range(8)]
     xs, _ = chk.generate(xfer.c12_task, xt)
-    chk.validate('TraceXfer', 'TraceXfer.cfg', xs)
+    # copy_vars into managers it must refuse: nothing may have been declared when it raises
+    ct = [dict(shard=chk.shard('cv_c17_%d' % i), tid=17500000 + i * 1000, seed=chk.seed * 23 + i,
+               ntraces=6 if q else 200) for i in range(4)]
+    cs, _ = chk.generate(xfer.copy_vars_conflict_task, ct)
+    chk.validate('TraceXfer', 'TraceXfer.cfg', xs + cs)
 
     def broken_after_raise(tr):
         for i, ev in enumerate(tr['events']):
